@@ -477,7 +477,7 @@ func init() {
 				sorted := false
 				if v != nil {
 					for _, cl := range fi.callsTo("sort.Slice", "sort.SliceStable") {
-						if fi.varOf(cl.Args[0]) != v || cl.Pos() > rs.Pos() || !fi.unconditionalIn(cl, fi.Decl.Body) {
+						if fi.varOf(cl.Args[0]) != v || startOf(cl) > startOf(rs) || !fi.unconditionalIn(cl, fi.Decl.Body) {
 							continue
 						}
 						// the comparison is on file names
